@@ -6,7 +6,8 @@ use crate::rng::Rng;
 use crate::spec::{self, arity, keyword, Class, Failure, Lang, Spec, VOCAB};
 use crate::sut::parse_g;
 
-const PAIRS: [(char, char); 5] = [('`', '`'), ('\'', '\''), ('"', '"'), ('\u{2018}', '\u{2019}'), ('\u{201c}', '\u{201d}')];
+const PAIRS: [(char, char); 8] =
+    [('`', '`'), ('`', '\''), ('\'', '\''), ('"', '"'), ('\u{2018}', '\u{2019}'), ('\u{201c}', '\u{201d}'), ('\u{ab}', '\u{bb}'), ('\u{2039}', '\u{203a}')];
 
 fn quoted_in(msg: &str, word: &str) -> bool {
     PAIRS.iter().any(|(a, b)| msg.contains(&format!("{}{}{}", a, word, b)))
@@ -30,13 +31,11 @@ fn span_after_role(msg: &str, role: &str) -> Vec<String> {
             continue;
         }
         let after = &rest[lead.len()..];
-        for (a, b) in PAIRS.iter() {
-            if after.starts_with(*a) {
-                let body = &after[a.len_utf8()..];
-                if let Some(e) = body.find(*b) {
-                    out.push(body[..e].to_string());
-                }
-                break;
+        if let Some(a) = after.chars().next() {
+            // nearest closer among the styles that share this opener
+            let body = &after[a.len_utf8()..];
+            if let Some(e) = PAIRS.iter().filter(|(x, _)| *x == a).filter_map(|(_, b)| body.find(*b)).min() {
+                out.push(body[..e].to_string());
             }
         }
     }
@@ -235,7 +234,9 @@ pub fn run(ctx: &Ctx, rep: &mut Report) {
             if wrap == 0 {
                 parts.push(")".into());
             }
-        } else if wrap == 0 && r.chance(1, 2) {
+        } else if wrap == 0 {
+            // always closed: with an unclosed parenthesis two errors compete and either may be reported
+            let _ = r.chance(1, 2);
             parts.push(")".into());
         }
         let text = parts.join(" ");
@@ -254,8 +255,12 @@ pub fn run(ctx: &Ctx, rep: &mut Report) {
         };
         let before = r.usize(4);
         let mut parts: Vec<String> = (0..before).map(|_| valid_primary(&mut r).to_string()).collect();
+        let mut open = false;
         match r.below(5) {
-            0 => parts.push("(".into()),
+            0 => {
+                parts.push("(".into());
+                open = true;
+            }
             1 => parts.push("!".into()),
             2 if before > 0 => parts.push(r.pick(&["-o", "-a", ","]).to_string()),
             _ => {}
@@ -263,6 +268,9 @@ pub fn run(ctx: &Ctx, rep: &mut Report) {
         parts.push(w);
         for _ in 0..r.usize(3) {
             parts.push(valid_primary(&mut r).to_string());
+        }
+        if open {
+            parts.push(")".into());
         }
         let text = parts.join(" ");
         check(&text, &format!("unknown:{}", i), before, rep);
